@@ -3,6 +3,7 @@ import AwsVerif.Proofs.C14.Format
 import AwsVerif.Proofs.C14.Bg
 import AwsVerif.Proofs.C14.Fg
 import AwsVerif.Proofs.C14.Na
+import AwsVerif.Proofs.C14.Subject
 /-! Proofs of the C14 property theorems (statements repeated in `AwsVerif/Props/C14.lean`). -/
 namespace AwsVerif.Proofs.C14.Thm
 open AwsVerif.Log AwsVerif.Gen.Log AwsVerif.Proofs.C14
@@ -272,6 +273,26 @@ theorem c14_writer_failure (p : Pipe) (c : Call) (line : Bytes) (hch : p.chan = 
     (pipelineLog p c).1.writeErrors = p.writeErrors + (if c.writeOk then 0 else 1) := by
   simp [pipelineLog, hf, hch]
 
+/-- **Subject lookup** (`s_get_log_subject_info_by_id`, its integer skeleton regenerated from logging.c): for every
+slot table and every subject id the lookup never reads at or behind the end of a registered list, and it returns an
+entry exactly when the id lies below the subject space, its slot is registered and its index in the slot is below that
+list's count — then the entry at that index; in every other case the name is "Unknown". -/
+theorem c14_subject_lookup (slots : Slots) (subject : Nat) :
+    (∀ i c, subjectLookup slots subject ≠ .oob i c) ∧
+    (∀ n, subjectLookup slots subject = .entry n ↔
+      subject < 2 ^ AWS_LOG_SUBJECT_STRIDE_BITS * AWS_PACKAGE_SLOTS ∧
+      ∃ names, slots (subject / 2 ^ AWS_LOG_SUBJECT_STRIDE_BITS) = some names ∧
+        subject % 2 ^ AWS_LOG_SUBJECT_STRIDE_BITS < names.length ∧
+        names[subject % 2 ^ AWS_LOG_SUBJECT_STRIDE_BITS]? = some n) ∧
+    (subjectName slots subject).isSome = true := by
+  have h := subjectLookup_spec slots subject
+  refine ⟨h.1, h.2, ?_⟩
+  unfold subjectName
+  cases hl : subjectLookup slots subject with
+  | entry n => rfl
+  | unknown => rfl
+  | oob i c => exact absurd hl (h.1 i c)
+
 /-! ## Background channel: every interleaving of senders, background thread, clean-up and spurious wake-ups
 
 `Bg.Reachable s`: `s` is reached from the initial state by any sequence of `Bg.Act`s — new sends by any
@@ -384,19 +405,26 @@ theorem c14_fg_safety (s : Fg.Sys) (hr : Fg.Reachable s) :
     · exact h
     · rw [hidle] at h; cases h
 
-/-- **No-alloc logger used by any number of threads**, every interleaving: the file holds exactly the lines the
-calls formatted, in the order of their `fwrite`s — none torn, replaced or duplicated (`file = logged.map some`,
-which rests on each call formatting into its own buffer); a thread's lines appear in its call order and no
-line twice; every call that has returned has its line in the file; at most one thread is between lock
-and unlock; and every line in the file carries the id of the thread whose call wrote it (the thread-id cache of
-the formatter is thread-local). -/
+/-- **No-alloc logger used by any number of threads**, every interleaving, any fwrite allowed to fail: the file holds
+exactly the lines the calls formatted whose fwrite succeeded, in the order of their `fwrite`s — none torn, replaced or
+duplicated (`file = logged.map some`, which rests on each call formatting into its own buffer); a thread's lines
+appear in its call order and no line twice; every call that has returned has its line in the file or had its write
+fail; at most one thread is between lock and unlock; every line in the file carries the id of the thread whose call
+wrote it (the thread-id cache of the formatter is thread-local); and whenever a call is in progress some thread can
+take a step — a failed write does not leave the logger's mutex locked, later calls go through. -/
 theorem c14_noalloc_threads (s : Na.Sys) (hr : Na.Reachable s) :
     s.file = s.logged.map some ∧
     s.logged.Pairwise (fun a b => a.1 = b.1 → a.2 < b.2) ∧ s.logged.Nodup ∧
-    (∀ l ∈ s.returned, l ∈ s.logged) ∧
+    (∀ l ∈ s.returned, l ∈ s.logged ∨ l ∈ s.failed) ∧
     (∀ t, nHolds (s.pcs t) = true ↔ s.mutex = some t) ∧
-    s.logged.map (·.1) = s.writers := by
+    s.logged.map (·.1) = s.writers ∧
+    ((∃ t, s.pcs t ≠ .idle) → ∃ t s', Na.step s (.thread t) = some s') := by
   have hi := ninv_reachable hr
-  exact ⟨hi.file, hi.lOrd, sameOrd_nodup hi.lOrd, hi.ret, hi.mx, hi.who⟩
+  refine ⟨hi.file, hi.lOrd, sameOrd_nodup hi.lOrd, hi.ret, hi.mx, hi.who, ?_⟩
+  intro hm
+  obtain ⟨t, ht⟩ := na_progress hi hm
+  cases h : Na.step s (.thread t) with
+  | none => rw [h] at ht; cases ht
+  | some s' => exact ⟨t, s', h⟩
 
 end AwsVerif.Proofs.C14.Thm
